@@ -53,6 +53,10 @@ def recheck(name, checks):
     meta["detected_by_now"] = [c for c, r in res.items() if r["exit"] == 1]
     json.dump(meta, open(os.path.join(d, "meta.json"), "w"), indent=1)
     ok = meta["property"] in meta["detected_by_now"] or (meta["property"] not in res and meta["detected_by_now"])
+    if meta.get("not_detected_reason"):
+        # recorded blind spot: expected to stay undetected (reported if that ever changes)
+        print(f"{name}: recorded as not detected ({meta['not_detected_reason'][:80]}…) now={meta['detected_by_now']}", flush=True)
+        return True
     print(f"{name}: first={first} now={meta['detected_by_now']} {'OK' if ok else 'MISSED'}", flush=True)
     return ok
 
